@@ -156,41 +156,98 @@ def outputsCalls (G : List Nat) (bodies : List RStmt) : List Nat :=
 
 /-! ### the decidable side conditions of the partial theorems
 
-`chk K s D` walks the statement, `K` being the recorded inputs and `D` the scalars that have
+`chk K s (D, DA)` walks the statement.  `K` are the recorded inputs; `D` the scalars that have
 been assigned *unconditionally, earlier in an enclosing statement sequence* (or are the
-variable of an enclosing / earlier loop).  It fails as soon as something is read that is
-neither a recorded input nor such a scalar, and returns the scalars defined after `s`. -/
+variable of an enclosing / earlier loop, or are assigned in BOTH branches of an earlier IF);
+`DA` the array elements `a(i)` (rank 1, index expression `i`) that have been stored
+unconditionally earlier in the same sequence, such that nothing `i` depends on has been
+written since — a *covering write*: a later read of the textually same `a(i)` sees it.
+`chk` fails as soon as something is read that is neither a recorded input, nor such a scalar,
+nor such an element, and returns the state after `s`. -/
 
-def okEv (K D : List Nat) (e : Ev) : Bool :=
-  e.write || K.contains e.var || (!e.arr && D.contains e.var)
+/-- variables (scalars and arrays) an expression depends on -/
+def mentions : Expr → Nat → Bool
+  | .lit _, _ => false
+  | .var y, x => y == x
+  | .idx1 a i, x => a == x || mentions i x
+  | .idx2 a i j, x => a == x || mentions i x || mentions j x
+  | .un _ e, x => mentions e x
+  | .bin _ a b, x => mentions a x || mentions b x
 
-def okE (K D : List Nat) (e : Expr) : Bool := (eacc e).all (okEv K D)
+/-- variables a statement may write -/
+def rwvars : RStmt → List Nat
+  | .skip => []
+  | .seq a b => rwvars a ++ rwvars b
+  | .assign x _ => [x]
+  | .store1 a _ _ => [a]
+  | .store2 a _ _ _ => [a]
+  | .ite _ t f => rwvars t ++ rwvars f
+  | .loop v _ _ _ b => v :: rwvars b
+  | .whileDo _ b => rwvars b
 
-def chk (K : List Nat) : RStmt → List Nat → Option (List Nat)
-  | .skip, D => some D
-  | .seq a b, D => (chk K a D).bind (chk K b)
-  | .assign x e, D => if okE K D e then some (x :: D) else none
-  | .store1 _ i e, D => if okE K D i && okE K D e then some D else none
-  | .store2 _ i j e, D => if okE K D i && okE K D j && okE K D e then some D else none
-  | .ite c t f, D =>
-      if okE K D c && (chk K t D).isSome && (chk K f D).isSome then some D else none
-  | .loop v lo hi st b, D =>
-      if okE K D lo && okE K D hi && okE K D st && (chk K b (v :: D)).isSome
-      then some (v :: D) else none
-  | .whileDo c b, D => if okE K D c && (chk K b D).isSome then some D else none
+abbrev Defs := List Nat × List (Nat × Expr)
 
-/-- every variable whose first access is a write and that is read afterwards is a scalar
-assigned unconditionally (earlier in an enclosing sequence, or as a loop variable) before
-each of those reads -/
-def WholeFirstWrites (s : RStmt) : Prop := (chk (inputs s) s []).isSome = true
+/-- drop the covered elements whose index depends on a variable in `W` -/
+def killA (DA : List (Nat × Expr)) (W : List Nat) : List (Nat × Expr) :=
+  DA.filter (fun p => !(W.any (mentions p.2)))
+
+/-- may this expression be evaluated: every scalar is an input or defined, every array
+element read is of an input array or is a covered element -/
+def okX (K : List Nat) (S : Defs) : Expr → Bool
+  | .lit _ => true
+  | .var x => K.contains x || S.1.contains x
+  | .idx1 a i => okX K S i && (K.contains a || S.2.contains (a, i))
+  | .idx2 a i j => okX K S i && okX K S j && K.contains a
+  | .un _ e => okX K S e
+  | .bin _ a b => okX K S a && okX K S b
+
+def subA (X Y : List (Nat × Expr)) : Bool := X.all Y.contains
+
+def chk (K : List Nat) : RStmt → Defs → Option Defs
+  | .skip, S => some S
+  | .seq a b, S => (chk K a S).bind (chk K b)
+  | .assign x e, S => if okX K S e then some (x :: S.1, killA S.2 [x]) else none
+  | .store1 a i e, S =>
+      if okX K S i && okX K S e then
+        some (S.1, if mentions i a then killA S.2 [a] else (a, i) :: killA S.2 [a])
+      else none
+  | .store2 a i j e, S =>
+      if okX K S i && okX K S j && okX K S e then some (S.1, killA S.2 [a]) else none
+  | .ite c t f, S =>
+      if okX K S c then
+        match chk K t S, chk K f S with
+        | some St, some Sf =>
+            some (St.1.filter Sf.1.contains, St.2.filter Sf.2.contains)
+        | _, _ => none
+      else none
+  | .loop v lo hi st b, S =>
+      let H := killA S.2 (v :: rwvars b)
+      if okX K S lo && okX K S hi && okX K S st then
+        match chk K b (v :: S.1, H) with
+        | some Sb => if subA H Sb.2 then some (v :: S.1, H) else none
+        | none => none
+      else none
+  | .whileDo c b, S =>
+      let H := killA S.2 (rwvars b)
+      if okX K (S.1, H) c then
+        match chk K b (S.1, H) with
+        | some Sb => if subA H Sb.2 then some (S.1, H) else none
+        | none => none
+      else none
+
+/-- every variable whose first access is a write and that is read afterwards is, at each of
+those reads, a scalar assigned unconditionally before (earlier in an enclosing sequence, in
+both branches of an IF, or as a loop variable), or an array element covered by an earlier
+unconditional store to the textually same element -/
+def WholeFirstWrites (s : RStmt) : Prop := (chk (inputs s) s ([], [])).isSome = true
 
 instance (s : RStmt) : Decidable (WholeFirstWrites s) := by unfold WholeFirstWrites; exact inferInstance
 
 /-- additionally every output is either an input or such a scalar defined unconditionally at
 the top level of the region (so that the *whole* recorded output is determined by the inputs) -/
 def outDefined (s : RStmt) : Bool :=
-  match chk (inputs s) s [] with
-  | some D => (outputs s).all (fun x => (inputs s).contains x || (D.contains x && !isArr (sacc s) x))
+  match chk (inputs s) s ([], []) with
+  | some S => (outputs s).all (fun x => (inputs s).contains x || (S.1.contains x && !isArr (sacc s) x))
   | none => false
 
 def OutputsDefined (s : RStmt) : Prop := outDefined s = true
@@ -228,6 +285,22 @@ def clausesE (evs : List Ev) : Clauses :=
 def arrays (s : RStmt) : List Nat := arraysE (sacc s)
 def clauses (s : RStmt) : Clauses := clausesE (sacc s)
 
+/-! structure members: `g%d(i)` is the signature `g%d` (its own variable id here); for the deep
+copy `create_data_movement_deep_copy_refs` puts the parent `g` in front of the member in the
+same clause (so `g` can be in several clauses).  Members of a structure are never "scalars"
+for the clause computation (the test looks at the datatype of `g`), they are exported as
+indexed accesses.  `par` maps a member id to its parent id. -/
+
+def parentsOf (par : List (Nat × Nat)) (l : List Nat) : List Nat :=
+  l.filterMap (fun x => (par.find? (fun q => q.1 == x)).map (·.2))
+
+def withParents (par : List (Nat × Nat)) (l : List Nat) : List Nat := dedup (parentsOf par l ++ l)
+
+def clausesP (par : List (Nat × Nat)) (s : RStmt) : Clauses :=
+  { cin := withParents par (clauses s).cin
+    cout := withParents par (clauses s).cout
+    cpy := withParents par (clauses s).cpy }
+
 /-- region items as seen by `ACCDataTrans.validate`: a MiniF statement, or a top-level node
 that is or contains (`walk`) a node of an excluded type (`CodeBlock`, `Return`, `PSyDataNode`) -/
 inductive Item where
@@ -264,6 +337,11 @@ def accDataTrans (hasEnterData : Bool) (items : List Item) : Option Clauses :=
   if items.isEmpty || hasExcluded items || hasEnterData then none
   else some (clauses (rseqs (itemsStmt items)))
 
+/-- the same with structure members (`par` empty gives `accDataTrans`) -/
+def accDataTransP (hasEnterData : Bool) (par : List (Nat × Nat)) (items : List Item) : Option Clauses :=
+  if items.isEmpty || hasExcluded items || hasEnterData then none
+  else some (clausesP par (rseqs (itemsStmt items)))
+
 /-! ### execution with separate device memory
 
 `γ` is the content of freshly allocated device memory: *arbitrary* (the theorems quantify
@@ -299,5 +377,12 @@ instance (s : RStmt) : Decidable (FullyWrittenOrRead s) := by unfold FullyWritte
 def copyoutNotRead (s : RStmt) : Bool := (clauses s).cout.all (fun x => !isRead (sacc s) x)
 def CopyoutNotRead (s : RStmt) : Prop := copyoutNotRead s = true
 instance (s : RStmt) : Decidable (CopyoutNotRead s) := by unfold CopyoutNotRead; exact inferInstance
+
+/-- weaker than `CopyoutNotRead`: a `copyout` array may be read, but only at elements covered
+by an earlier unconditional store of the region (`chk` with the other variables as inputs) -/
+def nonCout (s : RStmt) : List Nat :=
+  (varsOf (sacc s)).filter (fun x => !(clauses s).cout.contains x)
+def CopyoutCovered (s : RStmt) : Prop := (chk (nonCout s) s ([], [])).isSome = true
+instance (s : RStmt) : Decidable (CopyoutCovered s) := by unfold CopyoutCovered; exact inferInstance
 
 end RegionData
